@@ -265,6 +265,17 @@ impl C17 {
             if a.access & 3 != 3 {
                 return fail(col, "string-area-not-writable", format!("access {}", a.access));
             }
+            // writable in fact, not only by its mask: the first and the last byte take a store of the value they hold
+            for q in [*p, p + *l as u64 - 1] {
+                let r = call(|| {
+                    let v = ax.mem_read_8(q)?;
+                    ax.mem_write_8(q, v)
+                });
+                col.eval(1);
+                if !r.is_ok() {
+                    return fail(col, "string-byte-not-writable", format!("byte {:#x} of the string at {:#x}+{}: {}", q, p, l, r.describe()));
+                }
+            }
             ranges.push((*p, *l as u64));
         }
         // nothing the call created may lie inside the program image
